@@ -23,7 +23,7 @@ class C04(Prop):
             "non-trivial = tree with a non-integer double, an escape-needing byte or depth >= 2; distinct by tree hash")
     ASSUMPTIONS = ["only the C locale exists in this sandbox (decimal point is always '.')"]
     REQUIRED_CLASSES = ["non_integer_double", "escape_needed", "depth>=2", "growth_exercised", "from_parser", "top_of_range_double",
-                        "invalid_utf8"]
+                        "invalid_utf8", "wide_shallow>limit"]
 
     def budget(self, tier):
         return {"workers": 10, "examples": 900 if tier == "quick" else 10000}
@@ -42,6 +42,10 @@ class C04(Prop):
             gens.shaped_documents(leaves_u, keys_u, max_leaves=16).map(lambda d: {"kind": "tree", "jv": d, "utf8": True}),
             numbers.map(lambda d: {"kind": "tree", "jv": ["N", d], "utf8": True}),
             st.tuples(st.sampled_from(["[", "{", "[{"]), leaves_u).map(lambda t: {"kind": "tree", "jv": ["D", t[0], ["limit", 0], t[1]], "utf8": True}),
+            # shallow, but more containers in total than the parser's nesting limit
+            st.tuples(st.sampled_from([["O", []], ["A", []], ["O", [[b"k", ["A", []]]]]]), st.sampled_from([999, 1000, 1001, 1200, 2050]),
+                      st.sampled_from([["A", [["A", [["O", [[b"deep", ["A", [["t"]]]]]]]]]], ["N", 1.5]])).map(
+                lambda t: {"kind": "tree", "jv": ["A", [t[0]] * t[1] + [t[2]]], "utf8": True}),
         )
         sweep = st.fixed_dictionaries({"kind": st.just("numbers"),
                                        "values": st.lists(st.one_of(numbers, st.integers(-330, 310).map(pow10),
@@ -70,6 +74,8 @@ class C04(Prop):
                 classes.add("escape_needed")
         if model.depth_of(jv) >= 2:
             classes.add("depth>=2")
+        if jv[0] == "A" and len(jv[1]) >= 999:
+            classes.add("wide_shallow>limit")
         if not case["utf8"]:
             for n in model.walk_jv(jv):
                 if n[0] == "S":
